@@ -62,11 +62,12 @@ def _actions(body, chartext, depth=0):
         if n.k == "CallExpr" and n.callee and not n.callee.startswith("resize_") and _PROG[0] is not None and depth < 2:
             H = _PROG[0].functions.get(n.callee)
             if H is not None and H.body is not None and H.static:
-                ct = chartext
+                ct = None
                 for i, a in enumerate(n.args):
                     if a.strip(casts=True).text() == chartext and i < len(H.params):
                         ct = H.params[i]["name"]
-                acts |= _actions(H.body, ct, depth + 1)
+                if ct is not None:      # a per-character helper: it acts on the character this branch tested
+                    acts |= _actions(H.body, ct, depth + 1)
                 continue
         if n.k == "BinaryOperator" and n.d["op"] == "=":
             l = n.kids[0].strip()
@@ -108,11 +109,18 @@ def reader_signature(prog, F):
             loops = [a for a in n.ancestors() if a.k in ("ForStmt", "WhileStmt")]
             if loops:
                 chains.append((n, links, final, loops[0]))
-    # an enclosing chain (if (line[0] == '>') ... else { the character loop }) is not the classification itself
-    chains = [c for c in chains if not any(o[0] is not c[0] and o[0].within(c[0]) for o in chains)]
     # keep chains that touch the sequence record
     sig = []
     where = None
+    kept = []
+    for n, links, final, loop in chains:
+        ct = _ctype_arg(links[0][0])
+        acts = [_actions(th, ct) for c, th in links] + ([_actions(final, ct)] if final is not None else [])
+        if any("len++" in a or "gaps[len]++" in a for a in acts) or \
+                (any(acts) and any(_ctype_of(c) & {"isalpha", "ispunct", "isdigit", "isalnum", "isupper", "islower"} for c, _ in links)):
+            kept.append((n, links, final, loop))
+    # an enclosing chain (if (line[0] == '>') ... else { the character loop }) is not the classification itself
+    chains = [c for c in kept if not any(o[0] is not c[0] and o[0].within(c[0]) for o in kept)]
     for n, links, final, loop in chains:
         chartext = _ctype_arg(links[0][0])
         entry = []
